@@ -37,28 +37,30 @@ inductive Frag : Ty → Prop
 
 /-- value `y` is an instance of type `t` (exact runtime types; fields not provided by the document hold their declared
 default / `__post_init__` value, the catch-all field the captured pairs) -/
-inductive Sound : Ty → PyVal → Prop
-  | scalar (t : Ty) (y : PyVal) : isScalarTy t = true → conformsScalar t y = true → Sound t y
-  | any (y : PyVal) : Sound .any y
-  | optNone (t : Ty) : Sound (.optional t) .none
-  | optSome (t : Ty) (y : PyVal) : Sound t y → Sound (.optional t) y
-  | seq (k : SeqKind) (t : Ty) (xs : List PyVal) : (∀ x ∈ xs, Sound t x) → Sound (.seq k t) (.seq k xs)
-  | vtuple (t : Ty) (xs : List PyVal) : (∀ x ∈ xs, Sound t x) → Sound (.vtuple t) (.tuple xs)
-  | map (k : MapKind) (kt vt : Ty) (kvs : List (PyVal × PyVal)) : (∀ p ∈ kvs, Sound kt p.1) → (∀ p ∈ kvs, Sound vt p.2) →
-      Sound (.map k kt vt) (.map k kvs)
+inductive Sound (C : Ty → PyVal → Bool) : Ty → PyVal → Prop
+  | scalar (t : Ty) (y : PyVal) : C t y = true → Sound C t y
+  | any (y : PyVal) : Sound C .any y
+  | optNone (t : Ty) : Sound C (.optional t) .none
+  | optSome (t : Ty) (y : PyVal) : Sound C t y → Sound C (.optional t) y
+  | seq (k : SeqKind) (t : Ty) (xs : List PyVal) : (∀ x ∈ xs, Sound C t x) → Sound C (.seq k t) (.seq k xs)
+  | vtuple (t : Ty) (xs : List PyVal) : (∀ x ∈ xs, Sound C t x) → Sound C (.vtuple t) (.tuple xs)
+  | map (k : MapKind) (kt vt : Ty) (kvs : List (PyVal × PyVal)) : (∀ p ∈ kvs, Sound C kt p.1) → (∀ p ∈ kvs, Sound C vt p.2) →
+      Sound C (.map k kt vt) (.map k kvs)
   | inst (ci : ClassInfo) (ftys : List (S × Ty)) (fs : List (S × PyVal)) : fs.map (·.1) = ci.fields.map (·.name) →
       (∀ p ∈ fs, fromDefault ci p.1 p.2 ∨ catchAllOrigin ci p.1 ∨ (tyOf ftys p.1).isSome = true) →
-      (∀ p ∈ fs, ∀ t, tyOf ftys p.1 = some t → ¬ fromDefault ci p.1 p.2 → ¬ catchAllOrigin ci p.1 → Sound t p.2) →
-      Sound (.cls ci ftys) (.inst ci fs)
-  | union (ts : List Ty) (t : Ty) (y : PyVal) : t ∈ ts → isNoneArg t = false → Sound t y → Sound (.union ts) y
-  | unionNone (ts : List Ty) : ts.any isNoneArg = true → Sound (.union ts) .none
-  | tuple (ts : List Ty) (xs : List PyVal) : xs.length = ts.length → (∀ p ∈ ts.zip xs, Sound p.1 p.2) →
-      Sound (.tuple ts) (.tuple xs)
+      (∀ p ∈ fs, ∀ t, tyOf ftys p.1 = some t → ¬ fromDefault ci p.1 p.2 → ¬ catchAllOrigin ci p.1 → Sound C t p.2) →
+      Sound C (.cls ci ftys) (.inst ci fs)
+  | union (ts : List Ty) (t : Ty) (y : PyVal) : t ∈ ts → isNoneArg t = false → Sound C t y → Sound C (.union ts) y
+  | unionNone (ts : List Ty) : ts.any isNoneArg = true → Sound C (.union ts) .none
+  | tuple (ts : List Ty) (xs : List PyVal) : xs.length = ts.length → (∀ p ∈ ts.zip xs, Sound C p.1 p.2) →
+      Sound C (.tuple ts) (.tuple xs)
   | typeddict (name : S) (fields : List (S × Ty × Bool)) (ps : List (PyVal × PyVal)) :
       (∀ p ∈ ps, ∃ f ∈ fields, p.1 = .str f.1) →
-      (∀ p ∈ ps, ∀ f ∈ fields, p.1 = .str f.1 → Sound f.2.1 p.2) →
+      (∀ p ∈ ps, ∀ f ∈ fields, p.1 = .str f.1 → Sound C f.2.1 p.2) →
       (∀ f ∈ fields, f.2.2 = true → ∃ p ∈ ps, p.1 = .str f.1) →
-      Sound (.typeddict name fields) (.map .dict ps)
+      Sound C (.typeddict name fields) (.map .dict ps)
+
+variable {C : Ty → PyVal → Bool}
 
 theorem mapME_all {α β : Type} (f : α → Except LErr β) (P : β → Prop) (hf : ∀ x y, f x = .ok y → P y) :
     ∀ (xs : List α) (ys : List β), mapME f xs = .ok ys → ∀ y ∈ ys, P y
@@ -97,8 +99,8 @@ theorem dedupKeep_subset (xs : List PyVal) : ∀ x ∈ dedupKeep xs, x ∈ xs :=
       · intro x hx; exact hl x (by simp [hx])
   exact key xs [] (by simp) (fun x hx => hx)
 
-theorem mkSeq_sound (t : Ty) (k : SeqKind) (ys : List PyVal) (r : PyVal) (hs : ∀ y ∈ ys, Sound t y)
-    (h : mkSeq k ys = .ok r) : Sound (.seq k t) r := by
+theorem mkSeq_sound (t : Ty) (k : SeqKind) (ys : List PyVal) (r : PyVal) (hs : ∀ y ∈ ys, Sound C t y)
+    (h : mkSeq k ys = .ok r) : Sound C (.seq k t) r := by
   cases k <;> simp only [mkSeq, pure, Except.pure] at h
   · cases h; exact Sound.seq _ t ys hs
   · split at h
@@ -134,18 +136,18 @@ theorem foldl_dictInsert_all (P Q : PyVal → Prop) : ∀ (ps acc : List (PyVal 
       (fun x hx => hp x (by simp [hx]))
 
 theorem mkMap_sound (kt vt : Ty) (k : MapKind) (ps : List (PyVal × PyVal)) (r : PyVal)
-    (hs : ∀ p ∈ ps, Sound kt p.1 ∧ Sound vt p.2) (h : mkMap k ps = .ok r) : Sound (.map k kt vt) r := by
+    (hs : ∀ p ∈ ps, Sound C kt p.1 ∧ Sound C vt p.2) (h : mkMap k ps = .ok r) : Sound C (.map k kt vt) r := by
   unfold mkMap at h
   split at h
   · simp only [pure, Except.pure, Except.ok.injEq] at h; subst h
-    have := foldl_dictInsert_all (Sound kt) (Sound vt) ps [] (by simp) hs
+    have := foldl_dictInsert_all (Sound C kt) (Sound C vt) ps [] (by simp) hs
     exact Sound.map k kt vt _ (fun p hp => (this p hp).1) (fun p hp => (this p hp).2)
   · simp [rawE] at h
 
 /-- the per-field loader returns a value of the field's declared type -/
 theorem loadField_sound (std : Std) (cfg : Option MetaCfg) (f : S) (v : JVal) (y : PyVal) :
-    ∀ (ftys : List (S × Ty)), (∀ p ∈ ftys, ∀ o z, loadD std cfg p.2 o = .ok z → Sound p.2 z) →
-      loadField std cfg f v ftys = .ok y → ∃ t, tyOf ftys f = some t ∧ Sound t y
+    ∀ (ftys : List (S × Ty)), (∀ p ∈ ftys, ∀ o z, loadD std cfg p.2 o = .ok z → Sound C p.2 z) →
+      loadField std cfg f v ftys = .ok y → ∃ t, tyOf ftys f = some t ∧ Sound C t y
   | [], _, h => by simp [loadField] at h
   | (n, t) :: r, ih, h => by
     rw [loadField] at h
@@ -274,8 +276,8 @@ theorem buildFields_origin (K : List (S × PyVal)) : ∀ (F : List FieldInfo) (f
 /-- the instance `finishClass` builds: its fields, in declaration order, are loaded arguments, the captured catch-all
 dictionary, or declared defaults -/
 theorem finishClass_sound (ci : ClassInfo) (ftys : List (S × Ty)) (kw : List (S × PyVal)) (ca : List (PyVal × PyVal))
-    (o : JVal) (r : PyVal) (hkw : ∀ p ∈ kw, ∃ t, tyOf ftys p.1 = some t ∧ Sound t p.2)
-    (h : finishClass ci kw ca o = .ok r) : Sound (.cls ci ftys) r := by
+    (o : JVal) (r : PyVal) (hkw : ∀ p ∈ kw, ∃ t, tyOf ftys p.1 = some t ∧ Sound C t p.2)
+    (h : finishClass ci kw ca o = .ok r) : Sound C (.cls ci ftys) r := by
   unfold finishClass at h
   simp only at h
   split at h
@@ -285,7 +287,7 @@ theorem finishClass_sound (ci : ClassInfo) (ftys : List (S × Ty)) (kw : List (S
     · next fs hfs =>
       simp only [pure, Except.pure, Except.ok.injEq] at h; subst h
       obtain ⟨hn, ho⟩ := buildFields_origin _ ci.fields fs hfs
-      have horigin : ∀ p ∈ fs, (∃ t, tyOf ftys p.1 = some t ∧ Sound t p.2) ∨ fromDefault ci p.1 p.2 ∨ catchAllOrigin ci p.1 := by
+      have horigin : ∀ p ∈ fs, (∃ t, tyOf ftys p.1 = some t ∧ Sound C t p.2) ∨ fromDefault ci p.1 p.2 ∨ catchAllOrigin ci p.1 := by
         intro p hp
         rcases ho p hp with hK | ⟨g, hg, hgn, hgo⟩
         · -- an argument: loaded, or the catch-all dictionary
@@ -315,7 +317,7 @@ theorem finishClass_sound (ci : ClassInfo) (ftys : List (S × Ty)) (kw : List (S
   · simp at h
 
 theorem loadJunkKeys_sound (eff : MetaCfg) (ci : ClassInfo) (ftys : List (S × Ty)) (o : JVal) (r : PyVal) :
-    ∀ (xs : List JVal), loadJunkKeys eff ci o xs = .ok r → Sound (.cls ci ftys) r
+    ∀ (xs : List JVal), loadJunkKeys eff ci o xs = .ok r → Sound C (.cls ci ftys) r
   | [], h => by
     rw [loadJunkKeys] at h
     exact finishClass_sound ci ftys [] [] o r (by simp) h
@@ -461,8 +463,8 @@ theorem loadTagged_origin (std : Std) (cfg : Option MetaCfg) (tg : S) (o : JVal)
       all_goals (intros; rename_i hh; cases hh)
 
 theorem loadZip_sound (std : Std) (cfg : Option MetaCfg) : ∀ (ts : List Ty) (xs : List JVal) (ys : List PyVal),
-    (∀ t ∈ ts, ∀ o z, loadD std cfg t o = .ok z → Sound t z) → ts.length ≤ xs.length →
-    loadZip std cfg ts xs = .ok ys → ys.length = ts.length ∧ ∀ p ∈ ts.zip ys, Sound p.1 p.2
+    (∀ t ∈ ts, ∀ o z, loadD std cfg t o = .ok z → Sound C t z) → ts.length ≤ xs.length →
+    loadZip std cfg ts xs = .ok ys → ys.length = ts.length ∧ ∀ p ∈ ts.zip ys, Sound C p.1 p.2
   | [], xs, ys, _, _, h => by
     simp only [loadZip, pure, Except.pure, Except.ok.injEq] at h; subst h; simp
   | t :: ts, [], ys, _, hl, _ => by simp at hl
@@ -488,10 +490,10 @@ theorem filter_all_length {α} (p : α → Bool) (l : List α) (h : ∀ a ∈ l,
 
 theorem loadTd_sound (std : Std) (cfg : Option MetaCfg) (kvs : List (S × JVal)) (all : List (S × Ty × Bool)) :
     ∀ (fields : List (S × Ty × Bool)) (ps : List (PyVal × PyVal)),
-    (∀ f ∈ fields, ∀ o z, loadD std cfg f.2.1 o = .ok z → Sound f.2.1 z) →
+    (∀ f ∈ fields, ∀ o z, loadD std cfg f.2.1 o = .ok z → Sound C f.2.1 z) →
     (∀ f ∈ fields, f ∈ all) →
     loadTd std cfg fields kvs = .ok ps →
-      (∀ p ∈ ps, ∃ f ∈ fields, p.1 = .str f.1 ∧ Sound f.2.1 p.2) ∧ (∀ f ∈ fields, f.2.2 = true → ∃ p ∈ ps, p.1 = .str f.1)
+      (∀ p ∈ ps, ∃ f ∈ fields, p.1 = .str f.1 ∧ Sound C f.2.1 p.2) ∧ (∀ f ∈ fields, f.2.2 = true → ∃ p ∈ ps, p.1 = .str f.1)
   | [], ps, _, _, h => by
     simp only [loadTd, pure, Except.pure, Except.ok.injEq] at h; subst h; simp
   | (k, t, req) :: r, ps, ih, hall, h => by
@@ -566,9 +568,9 @@ theorem tdJunk_ok (fields : List (S × Ty × Bool)) (o : JVal) (y : PyVal) (h : 
 
 /-- **soundness over the fragment** -/
 theorem sound (std : Std) (cfg : Option MetaCfg) (t : Ty) (hf : Frag t) : ∀ (o : JVal) (y : PyVal),
-    loadD std cfg t o = .ok y → Sound t y := by
+    loadD std cfg t o = .ok y → Sound conformsScalar t y := by
   induction hf with
-  | scalar t ht => intro o y h; exact Sound.scalar t y ht (sound_scalar std cfg t ht o y h)
+  | scalar t ht => intro o y h; exact Sound.scalar t y (sound_scalar std cfg t ht o y h)
   | any => intro o y h; exact Sound.any y
   | optional t _ ih =>
     intro o y h
@@ -590,7 +592,7 @@ theorem sound (std : Std) (cfg : Option MetaCfg) (t : Ty) (hf : Frag t) : ∀ (o
       split at h
       · simp at h
       · next ys hys =>
-        exact mkSeq_sound t k ys y (mapME_all _ (Sound t) (fun x z hz => ih x z hz) xs ys hys) h
+        exact mkSeq_sound t k ys y (mapME_all _ (Sound conformsScalar t) (fun x z hz => ih x z hz) xs ys hys) h
   | vtuple t _ ih =>
     intro o y h
     rw [loadD] at h
@@ -602,7 +604,7 @@ theorem sound (std : Std) (cfg : Option MetaCfg) (t : Ty) (hf : Frag t) : ∀ (o
       · simp at h
       · next ys hys =>
         simp only [pure, Except.pure, Except.ok.injEq] at h; subst h
-        exact Sound.vtuple t ys (mapME_all _ (Sound t) (fun x z hz => ih x z hz) xs ys hys)
+        exact Sound.vtuple t ys (mapME_all _ (Sound conformsScalar t) (fun x z hz => ih x z hz) xs ys hys)
   | map k kt vt _ _ ihk ihv =>
     intro o y h
     cases o with
@@ -613,7 +615,7 @@ theorem sound (std : Std) (cfg : Option MetaCfg) (t : Ty) (hf : Frag t) : ∀ (o
       · simp at h
       · next ps hps =>
         refine mkMap_sound kt vt k ps y ?_ h
-        refine mapME_all _ (fun p : PyVal × PyVal => Sound kt p.1 ∧ Sound vt p.2) ?_ kvs ps hps
+        refine mapME_all _ (fun p : PyVal × PyVal => Sound conformsScalar kt p.1 ∧ Sound conformsScalar vt p.2) ?_ kvs ps hps
         intro kv p hp
         split at hp
         · simp at hp
@@ -632,7 +634,7 @@ theorem sound (std : Std) (cfg : Option MetaCfg) (t : Ty) (hf : Frag t) : ∀ (o
   | cls ci ftys _ ih =>
     intro o y h
     rw [loadD] at h
-    have hFL : ∀ f v z, loadField std cfg f v ftys = .ok z → ∃ t, tyOf ftys f = some t ∧ Sound t z :=
+    have hFL : ∀ f v z, loadField std cfg f v ftys = .ok z → ∃ t, tyOf ftys f = some t ∧ Sound conformsScalar t z :=
       fun f v z hz => loadField_sound std cfg f v z ftys (fun p hp o' z' hz' => ih p hp o' z' hz') hz
     cases o with
     | null => simp [loadClassWith] at h
@@ -644,7 +646,7 @@ theorem sound (std : Std) (cfg : Option MetaCfg) (t : Ty) (hf : Frag t) : ∀ (o
         obtain ⟨kw, ca⟩ := res
         simp only at h
         exact finishClass_sound ci ftys kw ca _ y
-          (loadKeysWith_sound _ (fun f z => ∃ t, tyOf ftys f = some t ∧ Sound t z) hFL _ ci kvs kw ca hres) h
+          (loadKeysWith_sound _ (fun f z => ∃ t, tyOf ftys f = some t ∧ Sound conformsScalar t z) hFL _ ci kvs kw ca hres) h
     | list xs => simp only [loadClassWith] at h; exact loadJunkKeys_sound _ ci ftys _ y xs h
     | str s => simp only [loadClassWith] at h; exact loadJunkKeys_sound _ ci ftys _ y _ h
     | bool _ => simp [loadClassWith] at h
@@ -712,7 +714,7 @@ theorem sound (std : Std) (cfg : Option MetaCfg) (t : Ty) (hf : Frag t) : ∀ (o
     · simp [rawE] at h
   | typeddict name fields hnd _ ih =>
     intro o y h
-    have hjunk : tdJunk fields o = .ok y → Sound (.typeddict name fields) y := by
+    have hjunk : tdJunk fields o = .ok y → Sound conformsScalar (.typeddict name fields) y := by
       intro hj
       obtain ⟨rfl, hany⟩ := tdJunk_ok fields o y hj
       refine Sound.typeddict name fields [] (by simp) (by simp) ?_
